@@ -158,7 +158,7 @@ func c07CheckS2S(cs *drv.Case, m *strmap.Str2Str, want map[string]string, probes
 
 func monC07(c *drv.Ctx) {
 	// (0) never-loaded and empty maps
-	c.Stage("never-loaded", 10, true, func(cs *drv.Case) {
+	c.Stage("never-loaded", 13, true, func(cs *drv.Case) {
 		probes := []string{"", "x", "\x00", "some longer key", string(gen.Bytes(cs.R, 100))}
 		switch cs.Idx {
 		case 8: // the zero value of Str2Str (its loaders create the inner parts lazily, so it is a usable map)
@@ -185,6 +185,33 @@ func monC07(c *drv.Ctx) {
 			}
 			if m.Len() != 0 {
 				cs.Fail("strmap-len", M{"map": "zero-value StrMap"}, M{"len": m.Len()})
+			}
+		case 10: // a zero-value StrMap loaded with nothing is an empty map
+			var m strmap.StrMap[int]
+			if err := m.LoadFromSlice(nil, nil); err != nil {
+				cs.Fail("strmap-load-error", M{"map": "zero-value StrMap"}, M{"err": errString(err)})
+			}
+			c07CheckInt(cs, &m, map[string]int{}, probes, "zero-value StrMap loaded with nothing")
+		case 11: // a zero-value StrMap loaded from a map, then reloaded
+			var m strmap.StrMap[int]
+			want := map[string]int{"a": 1, "": 2, "abc": 3}
+			if err := m.LoadFromMap(want); err != nil {
+				cs.Fail("strmap-load-error", M{"map": "zero-value StrMap"}, M{"err": errString(err)})
+			}
+			c07CheckInt(cs, &m, want, append(probes, "a", "ab", "abc"), "zero-value StrMap loaded from a map")
+			want2 := map[string]int{"z": 26}
+			m.LoadFromMap(want2)
+			c07CheckInt(cs, &m, want2, append(probes, "a", "z"), "zero-value StrMap reloaded")
+		case 12: // a zero-value StrMap[struct] loaded from slices
+			var m strmap.StrMap[c07Val]
+			if err := m.LoadFromSlice([]string{"k", "kk"}, []c07Val{{}, {}}); err != nil {
+				cs.Fail("strmap-load-error", M{"map": "zero-value StrMap[struct]"}, M{"err": errString(err)})
+			}
+			if _, ok := m.Get("k"); !ok || m.Len() != 2 {
+				cs.Fail("strmap-loaded-key-missing", M{"map": "zero-value StrMap[struct]"}, M{"len": m.Len()})
+			}
+			if _, ok := m.Get("kkk"); ok {
+				cs.Fail("strmap-absent-key-present", M{"map": "zero-value StrMap[struct]"}, nil)
 			}
 		case 0:
 			m := strmap.New[int]()
